@@ -110,7 +110,7 @@ Connect(c, k, clean, will) == ConnectF(c, k, clean, will, "plain")
    CONNACK: "reserved", "willflags", "notconnect", "truncated", "garbage"              *)
 RefuseCode(kind) == CASE kind \in {"level", "name"} -> 1
                       [] kind \in {"idlong", "idbad", "iddel", "idhigh", "idctl1f", "idempty0"} -> 2   \* identifiers: at most 32 bytes 0x20..0x7e
-                      [] kind \in {"auth", "auth-k1-clean", "auth-k1-keep"} -> 4   \* rejected credentials, also with a known client id
+                      [] kind \in {"auth", "auth-k1-clean", "auth-k1-keep", "auth-badpw", "auth-nopw", "auth-k1-badpw"} -> 4   \* rejected credentials, also with a known client id / a known user name
                       [] OTHER -> 0
 Refuse(c, kind, follow) ==
   /\ c \in Conns /\ conn[c].st = "free"
@@ -224,7 +224,10 @@ Pubrel(c, id) ==
 
 -----------------------------------------------------------------------------
 (* End of a connection: how = "disconnect" (DISCONNECT packet), "disconnect-eof" (the same, with the end of the stream
-   reaching the broker in the same read as the DISCONNECT), "cut" (network connection
+   reaching the broker in the same read as the DISCONNECT), "pings-disconnect-eof" (thousands of PINGREQs, the DISCONNECT
+   and the end of the stream in one write: the broker sees the end of the stream - and closes its outgoing buffer - while
+   the processor still has a backlog whose answers can no longer be written; the DISCONNECT at its end counts all the same:
+   the client sent it before it closed), "cut" (network connection
    closed), "bad" (malformed packet: protocol error).  Subscriptions leave the tree, the
    will of THIS connection is accepted unless the end was a DISCONNECT, a clean session is
    discarded.  (3.1.2.5, 3.14)                                                          *)
@@ -233,7 +236,7 @@ End(c, how) ==
   /\ LET k == conn[c].cid
          subs1 == {s \in subs : s.who # c}
          w == conn[c].will
-         fire == how \notin {"disconnect", "disconnect-eof"} /\ w.on
+         fire == how \notin {"disconnect", "disconnect-eof", "pings-disconnect-eof"} /\ w.on
      IN /\ subs' = subs1
         /\ ret' = IF fire THEN RetUpd(ret, w.t, w.q, w.pl, w.r) ELSE ret
         /\ out' = IF fire THEN FanOut(O0, subs1, w.t, w.q, w.pl) ELSE O0
